@@ -39,7 +39,7 @@ PASSWORDS = {
     'hello': ('hello world', False),
 }
 
-REPLY_KINDS = ('OK', 'OKA', 'OKS', 'OKE', 'NO', 'AGAIN', 'MORE', 'UNL', 'BLAH')
+REPLY_KINDS = ('OK', 'OKA', 'OKS', 'OKE', 'NO', 'NOB', 'AGAIN', 'MORE', 'UNL', 'BLAH')      # NOB: a refusal whose message is empty - the reply is the bare word NO
 ACCOUNT_KINDS = ('OKA', 'OKS', 'OKT')      # OK replies that carry an account (OKS: a shorter one without stamp suffix; OKT: followed by free text)
 TAG_KINDS = ('cur', 'old', 'bare', 'trunc', 'noid', 'junk', 'zz', 'wrongserial', 'wideid', 'wideserial')
 # wideid / wideserial: the live tag with 2^32 added to the id / the serial - numbers that denote somebody else, whatever a 32-bit variable makes of them
@@ -58,7 +58,7 @@ def reply_text(kind, i, svc):
         return ov[kind]
     return {
         'OK': 'OK', 'OKA': 'OK %s:7' % account_for(i, svc), 'OKS': 'OK s%d' % (abs(i) % 10), 'OKE': 'OK ', 'OKT': 'OK t%d:5 last seen from 2 other sessions' % (abs(i) % 10),
-        'NO': 'NO go away %s from %s' % (i, svc), 'AGAIN': 'AGAIN try again %s' % i,
+        'NO': 'NO go away %s from %s' % (i, svc), 'NOB': 'NO', 'AGAIN': 'AGAIN try again %s' % i,
         'MORE': 'MORE say more %s' % i, 'UNL': None, 'BLAH': 'BLAH what',
     }[kind]
 
@@ -510,9 +510,9 @@ def step(w, M, ev, ctx_pre, new_serial, out_lines, addr_check=True):
                                          xvouched=inst.xvouched or ('x' in inst.modes))
                 else:
                     W.add('dronecheck-offers-account')
-            elif rk == 'NO':
+            elif rk in ('NO', 'NOB'):
                 inst = inst._replace(refused=True)
-                text = reply_text('NO', i, svc)[3:]
+                text = reply_text(rk, i, svc)[3:]
                 expect.append(('C05.refusal-text', 'k %d %s %d :%s' % (i, c['addr'], c['port'], text),
                                lambda lines, i=i, text=text: any(p.kind == 'client' and p.cmd == 'k' and p.id == i and p.rest == ':' + text for p in lines)))
             elif rk in ('AGAIN', 'MORE'):
@@ -606,7 +606,7 @@ def step(w, M, ev, ctx_pre, new_serial, out_lines, addr_check=True):
                 st[j] = None
             elif p.cmd in 'kK':
                 W.add('reject')
-                if not (reply_for and reply_for[1] == 'NO' and j == i):
+                if not (reply_for and reply_for[1] in ('NO', 'NOB') and j == i):
                     V.append(('C05.unexplained-reject', 'client rejected (%r) without a refusal from an awaited service in this step' % line))
                 st[j] = None
             elif p.cmd == 'C':
